@@ -10,7 +10,7 @@ modelled branch for branch:
 * `compare_serial`                   -> `compareSerial`            (`itertools.combinations`, `M[i][j] = M[j][i] = sig[i].f(sig[j])`)
 * `compare_serial_containment`       -> `compareSerialContainment` (double loop, `M[i][j] = sig[j].f(sig[i])`, diagonal written as 1)
 * `compare_serial_max_containment`,
-  `compare_serial_avg_containment`   -> `compareSerialMax`, `compareSerialAvg` (`combinations`, `M[i][j] = M[j][i] = sig[j].f(sig[i])`)
+  `compare_serial_avg_containment`   -> `compareSerialMax`, `compareSerialAvg`, `compareSerialAvgAni` (`combinations`, `M[i][j] = M[j][i] = sig[j].f(sig[i])`)
 * `return_ani=True`: `if ani is None: ani = 0.0`                    -> `aniOrZero`
 * `similarity_args_unpack` / `get_similarities_at_index`           -> `simAtIndex` (row i = values for j = i+1 .. n-1)
 * `compare_parallel`                 -> `compareParallel` (`np.eye`, chunk size `divmod(n, n_jobs)` rounded up,
@@ -73,7 +73,7 @@ def aniOrZero (zero : α) (r : Except String (Option α)) : Except String α :=
 
 /-- `cell a b` = receiver `siglist[a]`, argument `siglist[b]`; a loop body that calls
     `siglist[i].f(siglist[j])` uses `cell i j`, one that calls `siglist[j].f(siglist[i])` uses `cell j i` -/
-def orient (recvIsRow : Bool) (cell : Nat → Nat → Except String α) : Nat → Nat → Except String α :=
+def orient {β : Type} (recvIsRow : Bool) (cell : Nat → Nat → β) : Nat → Nat → β :=
   if recvIsRow then cell else fun i j => cell j i
 
 /-- body of the `for i, j in iterator:` loops: `M[i][j] = M[j][i] = <value>` (assigned left to right) -/
@@ -89,10 +89,32 @@ def compareSerial (n : Nat) (cell : Nat → Nat → Except String α) (one : α)
 def compareSerialMax (n : Nat) (cell : Nat → Nat → Except String α) (one : α) : Except String (Mat α) :=
   (pairsUpper n).foldlM (stepSym (orient Gen.cmpMaxRecvIsRow cell)) (Mat.ones n one)
 
-/-- `compare_serial_avg_containment`: the receiver is `siglist[j]` (first argument of
-    `FracMinHashComparison` in the ANI branch), the argument `siglist[i]` -/
+/-- `compare_serial_avg_containment(return_ani=False)`: the receiver of `avg_containment` is `siglist[j]`,
+    the argument `siglist[i]` -/
 def compareSerialAvg (n : Nat) (cell : Nat → Nat → Except String α) (one : α) : Except String (Mat α) :=
   (pairsUpper n).foldlM (stepSym (orient Gen.cmpAvgRecvIsRow cell)) (Mat.ones n one)
+
+/-- `ani = None; if r1.ani is not None and r2.ani is not None: ani = (r1.ani + r2.ani) / 2;
+    if ani is None: ani = 0.0`  (`avg x y` = `(x + y) / 2`) -/
+def avgOrZero (avg : α → α → α) (zero : α) (a1 a2 : Option α) : α :=
+  match a1, a2 with
+  | some x, some y => avg x y
+  | _, _ => zero
+
+/-- what `compare_serial_avg_containment(return_ani=True)` stores for the pair `(i, j)` (since /repo b596f84):
+    `r1 = siglist[j].containment_ani(siglist[i], downsample=downsample)`, then
+    `r2 = siglist[i].containment_ani(siglist[j], downsample=downsample)`, averaged, None -> 0.0.
+    `cani a b` = outcome of `siglist[a].containment_ani(siglist[b], downsample=…).ani`. -/
+def avgAniCell (avg : α → α → α) (zero : α) (cani : Nat → Nat → Except String (Option α)) (i j : Nat) :
+    Except String α := do
+  let r1 ← orient Gen.cmpAvgAniFirstRecvIsRow cani i j
+  let r2 ← orient Gen.cmpAvgAniFirstRecvIsRow cani j i
+  pure (avgOrZero avg zero r1 r2)
+
+/-- `compare_serial_avg_containment(siglist, downsample=…, return_ani=True)` -/
+def compareSerialAvgAni (n : Nat) (cani : Nat → Nat → Except String (Option α)) (avg : α → α → α) (zero one : α) :
+    Except String (Mat α) :=
+  (pairsUpper n).foldlM (stepSym (avgAniCell avg zero cani)) (Mat.ones n one)
 
 /-- body of the double loop of `compare_serial_containment` -/
 def stepContainment (cell : Nat → Nat → Except String α) (one : α) (m : Mat α) (p : Nat × Nat) :
